@@ -58,6 +58,8 @@ func (t Token) transfer(ctx, from, to, amount, innerRing, details) (ok)
   ensures [C02] ok && !innerRing ==> len(to) == 20 && usable(from)
   ensures [C02] ok ==> forall a Bytes {store.opt(akey(a))} :: len(a) == 20 && bal(store, a) < old(bal(store, a)) ==> a == from
   ensures SameBut2(store, old(store), from, to)
+  ensures len(from) != 20 ==> store.opt(akey(from)) == old(store).opt(akey(from))
+  ensures len(to) != 20 ==> store.opt(akey(to)) == old(store).opt(akey(to))
   ensures supply(store) == old(supply(store))
   ensures [C09] ok && len(to) == 20 && to != from ==> store.has(akey(to))
             && acct(store, to).Until == old(acct(store, to)).Until && acct(store, to).Parent == old(acct(store, to)).Parent
@@ -84,10 +86,46 @@ func Burn(from, amount, txDetails)
   ensures W(alphabet())
   ensures [C01] supply(store) == old(supply(store)) - amount && bal(store, from) == old(bal(store, from)) - amount
   ensures [C01] supply(store) >= 0
+  // C09: a partial burn leaves the lock (expiry, parent) in place with the reduced balance, a full burn removes the account
+  ensures [C09] old(bal(store, from)) != amount ==> store.has(akey(from))
+            && acct(store, from).Until == old(acct(store, from)).Until && acct(store, from).Parent == old(acct(store, from)).Parent
+  ensures [C09] old(bal(store, from)) == amount ==> !store.has(akey(from))
+  ensures [C02] forall a Bytes {store.opt(akey(a))} :: len(a) == 20 && a != from ==> store.opt(akey(a)) == old(store).opt(akey(a))
+
+func TransferX(from, to, amount, details)
+  requires len(from) == 20 && len(to) == 20
+  ensures W(alphabet())
+  ensures [C01] supply(store) == old(supply(store))
+  ensures [C01] notifs == old(notifs) ++ [Transfer(from, to, amount), TransferX(from, to, amount, details)]
+  ensures [C01,C05] forall a Bytes {store.opt(akey(a))} :: len(a) == 20 ==>
+            bal(store, a) == old(bal(store, a)) - (a == from ? amount : 0) + (a == to ? amount : 0)
+  ensures [C02] amount >= 0 && old(bal(store, from)) >= amount
+
+// Lock. Input assumptions granted by the property text: well-formed 20-byte addresses and a fresh lock address.
+func Lock(txDetails, from, to, amount, until)
+  requires len(from) == 20 && len(to) == 20 && from != to && !store.has(akey(to))
+  ensures W(alphabet())
+  ensures [C09] store.has(akey(to)) && acct(store, to).Balance == amount && acct(store, to).Until == until && acct(store, to).Parent == from
+  ensures [C09] bal(store, from) == old(bal(store, from)) - amount && amount >= 0
+  ensures [C09] notifs == old(notifs) ++ [Transfer(from, to, amount), TransferX(from, to, amount, "\x03" ++ txDetails), Lock(txDetails, from, to, amount, until)]
+  ensures [C01] supply(store) == old(supply(store))
+  ensures [C09] forall a Bytes {store.opt(akey(a))} :: len(a) == 20 && a != from && a != to ==> store.opt(akey(a)) == old(store).opt(akey(a))
+  // the created account is released by every tick with epoch >= until ...
+  ensures [C09] finding F_C09_until0 (until == 0) forall e Int {expired(store, to, e)} :: e >= until ==> expired(store, to, e)
+  // ... and by no earlier one
+  ensures [C09] forall e Int {expired(store, to, e)} :: e < until ==> !expired(store, to, e)
 
 func NewEpoch(epochNum)
   ensures W(alphabet())
+  // all locks expiring at this tick are released by this tick
   ensures [C09] forall a Bytes {store.opt(akey(a))} :: len(a) == 20 ==> !expired(store, a, epochNum)
+  // a released lock account is gone or no longer a lock (so it cannot be released twice)
+  ensures [C09] forall a Bytes {store.opt(akey(a))} :: len(a) == 20 && expired(old(store), a, epochNum) ==> !store.has(akey(a)) || acct(store, a).Until == 0
+  // accounts that are not expired locks are never debited by a tick and keep their lock data
+  ensures [C09,C02] forall a Bytes {store.opt(akey(a))} :: len(a) == 20 && !expired(old(store), a, epochNum)
+                ==> bal(store, a) >= old(bal(store, a)) && acct(store, a).Until == old(acct(store, a)).Until
+  // a tick before every expiry changes nothing
+  ensures [C09] (forall a Bytes {old(store).opt(akey(a))} :: len(a) == 20 ==> !expired(old(store), a, epochNum)) ==> store == old(store) && notifs == old(notifs)
   ensures [C01] supply(store) == old(supply(store))
   loop 0
     invariant LockWF(store)
@@ -95,4 +133,7 @@ func NewEpoch(epochNum)
     invariant forall j Int {$it.key(j)} :: 0 <= j < $it.pos && len($it.key(j)) == 21 ==> !expired(store, $it.key(j)[1:], epochNum)
     invariant forall a Bytes {store.opt(akey(a))} :: store.has(akey(a)) && acct(store, a).Until != 0
                 ==> old(store).has(akey(a)) && acct(store, a).Until == old(acct(store, a)).Until
+    invariant forall a Bytes {store.opt(akey(a))} :: len(a) == 20 && !expired(old(store), a, epochNum)
+                ==> bal(store, a) >= old(bal(store, a)) && acct(store, a).Until == old(acct(store, a)).Until
+    invariant (forall a Bytes {old(store).opt(akey(a))} :: len(a) == 20 ==> !expired(old(store), a, epochNum)) ==> store == old(store) && notifs == old(notifs)
 @*/
